@@ -82,14 +82,27 @@ def run_impl(case):
             if allow: os.environ['OF_SAFE_METRICS'] = case.get('envtext') or ','.join(allow)
             al = ofcfg.read_allowlist()
         else:       # 'file' | 'both' (file and OF_SAFE_METRICS set: the file wins) | 'nokey' (file without the safe_metrics key) | 'badfile' (unreadable: falls through to the env)
-            tmp = tempfile.NamedTemporaryFile('w', suffix='.yaml', delete=False)
-            if via == 'nokey': tmp.write('openlineage:\n  url: http://x\n')
-            elif via == 'badfile': tmp.write('safe_metrics: [unclosed\n')
-            else: tmp.write('safe_metrics:\n' + ''.join(f'  - {json.dumps(a)}\n' for a in allow) if allow else 'safe_metrics: []\n')
-            tmp.close()
+            # ONE configured file per process (the check's private scratch directory), edited between filter starts: every case rewrites it
+            import contextlib, io
+            class _F:
+                name = os.path.join(os.getcwd(), 'ofverif_safe_metrics.yaml')
+            tmp = _F()
             os.environ['OF_SAFE_METRICS_FILE'] = tmp.name
             if case.get('envtext'): os.environ['OF_SAFE_METRICS'] = case['envtext']
-            import contextlib, io
+            body = ('openlineage:\n  url: http://x\n' if via == 'nokey' else 'safe_metrics: [unclosed\n' if via == 'badfile' else
+                    ('safe_metrics:\n' + ''.join(f'  - {json.dumps(a)}\n' for a in allow) if allow else 'safe_metrics: []\n'))
+            if case.get('prev_version') and allow and via in ('file', 'both'):
+                # the file as it was when an earlier filter of this process started: one entry differs, same length - then edited within the same second
+                k = case['prev_version'] % len(allow)
+                a = allow[k]; a2 = (a[:-1] + ('q' if a[-1:] != 'q' else 'r')) if a else 'q'
+                prev = 'safe_metrics:\n' + ''.join(f'  - {json.dumps(a2 if i == k else x)}\n' for i, x in enumerate(allow))
+                with open(tmp.name, 'w') as f: f.write(prev)
+                with contextlib.redirect_stdout(io.StringIO()): ofcfg.read_allowlist()
+                st = os.stat(tmp.name)
+                with open(tmp.name, 'w') as f: f.write(body)
+                os.utime(tmp.name, (st.st_atime, int(st.st_mtime) + 0.7))
+            else:
+                with open(tmp.name, 'w') as f: f.write(body)
             with contextlib.redirect_stdout(io.StringIO()): al = ofcfg.read_allowlist()
         if case.get('raw'): os.environ['OPENLINEAGE_EXPORT_RAW_DATA'] = 'true'; cap._last_frame_data = {'x': 1}
         if case.get('e2e'):
@@ -119,7 +132,9 @@ def run_impl(case):
         for k, v in old.items():
             os.environ.pop(k, None)
             if v is not None: os.environ[k] = v
-        if tmp: os.unlink(tmp.name)
+        if tmp:
+            try: os.unlink(tmp.name)
+            except OSError: pass
     if len(cap.calls) > 1: return {'facet': 'multiple-calls'}
     return {'facet': canon_facet(cap.calls[0]) if cap.calls else None}
 
@@ -306,6 +321,7 @@ def gen_case(rng):
         else: p = {'k': k}
         ms.append({'name': nm, 'point': p})
     case = {'allow': allow, 'via': via, 'metrics': ms, 'cut': rng.randint(0, len(ms)), 'raw': rng.random() < 0.08}
+    if via == 'file' and allow and rng.random() < 0.4: case['prev_version'] = rng.randint(1, 8)
     if via == 'env' and allow:
         if any(',' in a or a != a.strip() or not a for a in allow): case['via'] = 'ctor'
         else: case['envtext'] = (' , '.join(allow) + rng.choice(['', ',', ' , ,'])) if rng.random() < 0.5 else ','.join(allow)
